@@ -130,6 +130,8 @@ func TestVerifC08Loop(t *testing.T) {
 	if verifThorough() {
 		nrand = 60
 		patterns = append(patterns, append(fails(16, 2), 0, 1, 1, 0))
+		// an outage of more consecutive failures than any small modulus, word size or table a counter might wrap at (about 3 minutes)
+		patterns = append(patterns, append(fails(70, 2), 0, 1))
 	}
 	for i := 0; i < nrand; i++ {
 		l := 2 + rng.intn(11)
@@ -220,7 +222,7 @@ func verifRunLoopPattern(p []int) ([]int64, int, bool) {
 			}()
 			select {
 			case <-done:
-			case <-time.After(90 * time.Second):
+			case <-time.After(90*time.Second + time.Duration(len(p))*3500*time.Millisecond):
 				return nil, 0, false
 			}
 			s.mu.Lock()
